@@ -314,6 +314,14 @@ where
             rest.push(x.describe());
         }
     }
+    // with records: by now the consumer has been through a complete scan that began after the delivery (the call itself,
+    // or the wait() it went on to) - the record must have come out; one that only appears together with a LATER delivery
+    // was sitting there unreported while the consumer slept
+    let stuck = raw && !optional_new && {
+        let mut sofar = got_outer.clone();
+        sofar.extend(rest.iter().cloned());
+        !new_reported(&sofar)
+    };
     // a LATER delivery, straight after the call (no scan in between): the consumer goes to sleep in
     // wait() and must be woken by it and be handed it
     let later_seq = inner_seq + 1;
@@ -330,6 +338,9 @@ where
     all.extend(later.iter().cloned());
     // every complaint starts with its kind: LOST (C09), EXTRA / UNWATCHED / FIELD / ORDER (C10)
     let mut bad: Vec<String> = Vec::new();
+    if stuck {
+        bad.push(format!("LOST the record of the delivery (value {}) had not come out after the call and the wait() that followed it; the consumer would sleep on it", inner_seq));
+    }
     for (sig, _) in &all {
         if *sig != S && *sig != T {
             bad.push(format!("UNWATCHED yielded {} which is not watched", sig));
